@@ -7,6 +7,8 @@ Every run:
      over the regenerated table: a new unchecked operation / a removed guard breaks the build);
   3. crash stream on the REAL code (subprocess workers, watchdog, address-space limit): pinned corpus,
      every testdata schema, grammar-aware / text / byte mutations under random outputs and flags,
+     CUE texts drawn from the CUE grammar (harness/c04_cuegen.go: every label form and value form in every
+     value position, default values included) through the real CUE front-end, passes and jennies,
      generated IR (well-formed and malformed) through passes / chains / FromAST / per-language contexts,
      generated YAML pass files (with malformed `as:` types) and veneer files on generated IR,
      generated pipeline configuration documents;
@@ -38,6 +40,9 @@ C04_parse_wf_openapi C04_parse_wf_jsonschema C04_partial_ops_accounted
 """.split()]
 
 C04_WORK = os.path.join(WORK, "c04")
+# findings of the grammar-directed CUE stream proposed for known_findings.json: treated as known until an
+# entry with the same id exists there (then the copy here is ignored)
+CUE_PROPOSED = os.path.join(VERIF, "checks", "c04.cuegrammar.proposed_findings.json")
 FACTS = os.path.join(WORK, "c20", "facts.json")
 
 # the Lean counterexample witnesses and the corpus case that replays each on the real code
@@ -89,7 +94,7 @@ FIXED_PINNED = {
 
 def route_of(rid, note):
     head = rid.split("/")[0]
-    if head in ("corpus", "seed", "mut"):
+    if head in ("corpus", "seed", "mut", "cuegen"):
         m = re.search(r"format=(\w+)", note or "")
         return "input:" + (m.group(1) if m else "?")
     if head in ("config", "corpus-config"):
@@ -139,6 +144,9 @@ def main():
     os.makedirs(C04_WORK, exist_ok=True)
     if os.environ.get("C04_KNOWN_FILE"):  # test hook: try a candidate known_findings.json before it is merged
         c.known = [f for f in json.load(open(os.environ["C04_KNOWN_FILE"])).get("findings", []) if f.get("property") == "C04"]
+    if os.path.exists(CUE_PROPOSED):
+        have = {f["id"] for f in c.known}
+        c.known += [f for f in json.load(open(CUE_PROPOSED)).get("findings", []) if f["id"] not in have and f.get("property") == "C04"]
     c.trusted = [
         "Lean 4.33 kernel; axioms per theorem in obligation_list (subset of propext, Classical.choice, Quot.sound)",
         "the Lean models of the passes (C06), transformations (C15), FromAST/veneers (C16/C17) — tied to the code by those properties' correspondence streams; here additionally by the prediction check (hypotheses hold => the real code must not panic)",
@@ -188,13 +196,23 @@ def main():
 
     # ---------------- the crash stream ----------------
     if c.tier == "quick":
-        vol = dict(nmut=8000, nir=1200, npy=2000, nvy=1200, ncfg=2500, perseed=3, depth=3)
+        vol = dict(nmut=8000, nir=1200, npy=2000, nvy=1200, ncfg=2500, ncue=500, perseed=3, depth=3)
     else:
-        vol = dict(nmut=160000, nir=30000, npy=40000, nvy=25000, ncfg=50000, perseed=20, depth=4)
+        vol = dict(nmut=160000, nir=30000, npy=40000, nvy=25000, ncfg=50000, ncue=12000, perseed=20, depth=4)
     t0 = time.time()
     rows, stderr = run_stream(hb, "c04-run", seed=c.seed, **vol)
     c.cov["stream_wall_s"] = round(time.time() - t0, 1)
     c.cov["harness_note"] = stderr.strip().split("\n")[-1][:300]
+    # health of the CUE grammar generator: the same texts through the CUE parser / compiler alone
+    try:
+        p = subprocess.run([hb, "c04-cuegen", "seed=%d" % c.seed, "n=%d" % vol["ncue"]], capture_output=True, text=True, timeout=300, cwd=REPO, env=GOENV)
+        last = [l for l in p.stdout.split("\n") if l.startswith("-\t")][-1].split("\t")[1]
+        c.cov["cuegen"] = last
+        m = re.search(r"texts=(\d+) syntax_ok=(\d+) compile_ok=(\d+)", last)
+        c.oblige("the CUE grammar generator produces texts the CUE compiler accepts (at least half of them) with struct- and list-valued defaults, hidden / optional / definition members",
+                 bool(m) and int(m.group(3)) * 2 >= int(m.group(1)) and all(re.search(r"\b%s:[1-9]" % f, last) for f in ("struct-default", "list-default", "hidden", "hidden-def", "inner-def", "optional", "required", "pattern", "let", "comprehension", "nested-default", "map", "close")), last[:600])
+    except Exception as e:  # noqa
+        c.oblige("the CUE grammar generator ran", False, str(e)[:500])
 
     # pipeline runs that panicked inside a compiler pass carry the IR the chains received: ask the models
     run_ir = [r for r in rows if not r[0]["id"].startswith(("ir/", "passes-yaml/", "veneers-yaml/")) and r[0].get("extra")]
